@@ -181,6 +181,53 @@ def run(ck: Check) -> None:
                          {"canonical_size": len(data), "signature_is_rfc8032_over_canonical_bytes": sig == want, "serialize_and_sign_same": direct == want,
                           "verify_signable": verdict, "verify_signature_of_reference_signature": prim}, "sized:roundtrip")
             break
+    # "touches only the signer's own entry", observed directly: the envelope and its signature map are dict subclasses that log every modifying operation;
+    # after sign_signable the log may hold stores under the signer's own key id only — no deletion, pop, clear, re-insertion of other entries (not even
+    # transiently: another thread may be looking), and no replacement of the whole map
+    class WatchDict(dict):
+        log = None
+        def _note(self, what, key=None):
+            if self.log is not None:
+                self.log.append((self.name, what, key))
+        def __setitem__(self, k, v): self._note("store", k); dict.__setitem__(self, k, v)
+        def __delitem__(self, k): self._note("delete", k); dict.__delitem__(self, k)
+        def pop(self, k, *d): self._note("delete", k); return dict.pop(self, k, *d)
+        def popitem(self): self._note("delete", "<popitem>"); return dict.popitem(self)
+        def clear(self): self._note("delete", "<clear>"); dict.clear(self)
+        def setdefault(self, k, d=None):
+            if k not in self: self._note("store", k)
+            return dict.setdefault(self, k, d)
+        def update(self, *a, **kw):
+            for k in dict(*a, **kw): self._note("store", k)
+            dict.update(self, *a, **kw)
+        def __ior__(self, other):
+            for k in dict(other): self._note("store", k)
+            return dict.__ior__(self, other)
+    for j in range(6):
+        kk = gen.key(j)
+        pk = impl.common.PrivateKey.from_bytes(kk.seed)
+        payload = {"name": "watched", "n": j}
+        data = gen.oracle_bytes(payload)
+        log = []
+        sigs = WatchDict({gen.key(8).hex: gen.raw_entry(gen.key(8), data), "junk": "x", gen.key(9).hex: {"signature": "00" * 64}})
+        if j % 2:
+            sigs[kk.hex] = {"signature": "11" * 64}          # the signer's own earlier entry, about to be replaced
+        env = WatchDict({"signatures": sigs, "signed": payload})
+        sigs.name, env.name = "signatures", "envelope"
+        sigs.log = env.log = log
+        ck.evaluations += 1
+        ck.oracle_checks += 1
+        try:
+            with impl.quiet_stdout():
+                impl.signing.sign_signable(env, pk)
+        except Exception as e:  # noqa: BLE001
+            ck.violation("signing a signable envelope failed", {"error": repr(e)[:200], "envelope_kind": "dict subclass"}, "sign-failed:watched")
+            continue
+        foreign = [(n, w, proto.label(k)) for (n, w, k) in log if not (n == "signatures" and w == "store" and k == kk.hex)]
+        if foreign or env["signatures"].get(kk.hex) != gen.raw_entry(kk, data):
+            ck.violation("sign_signable modified more than the signer's own entry of the signature map (other entries were removed / re-inserted, or the whole map replaced — visible to a concurrent reader or signer)",
+                         {"signer": kk.hex, "modifying_operations": [list(x) for x in log][:12]}, "sign-touches-others")
+            break
     # two signers at work on one envelope at the same time (threads; every sampled schedule in which the two calls overlap without nesting, and with nesting):
     # each touches its own entry only, so both entries are there afterwards and are the ones sequential signing gives
     import os as _os
@@ -197,10 +244,14 @@ def run(ck: Check) -> None:
         for k1 in range(1, na + 1):
             for k2 in sorted({1, max(1, na // 2), na}):
                 env = {"signatures": {"junk": "x"}, "signed": copy.deepcopy(payload)}
-                sched.staggered(lambda: impl.signing.sign_signable(env, pa), lambda: impl.signing.sign_signable(env, pb), k1, k2, repo_pkg)
+                ra, rb, _, _ = sched.staggered(lambda: impl.signing.sign_signable(env, pa), lambda: impl.signing.sign_signable(env, pb), k1, k2, repo_pkg)
                 nsched += 1
                 ck.evaluations += 1
                 ck.oracle_checks += 1
+                if ra is not None or rb is not None:
+                    ck.violation("two signers signing one envelope concurrently: a call that succeeds alone failed", {"first": str(ra)[:120], "second": str(rb)[:120],
+                                 "first_signer_stopped_after_steps": k1, "second_signer_stopped_after_steps": k2}, "concurrent-signers-failed")
+                    break
                 if not proto.deep_equal(env, ref):
                     ck.violation("two signers signing one envelope concurrently: a signer's call touched more than its own entry (an entry is missing or altered afterwards)",
                                  {"first_signer_stopped_after_steps": k1, "second_signer_stopped_after_steps": k2, "entries_present": sorted(env["signatures"]),
